@@ -426,6 +426,10 @@ class Report:
     def check(self, cond: bool, rule, where, construct, detail_ok="", detail_bad="", **kw):
         return self.add(rule, where, construct, OK if cond else VIOLATION, detail_ok if cond else (detail_bad or detail_ok), **kw)
 
+    def expect(self, cond: bool, rule, where, construct, detail_ok="", detail_bad="", **kw):
+        """Shape recogniser: a match is OK, a mismatch is UNDECIDED (unknown idiom), never a violation."""
+        return self.add(rule, where, construct, OK if cond else UNDECIDED, detail_ok if cond else ("code shape not recognised - " + (detail_bad or detail_ok)), **kw)
+
     def floor(self, what: str, measured: int, floor: int) -> None:
         self.floors.append((what, measured, floor))
 
